@@ -6,6 +6,9 @@ R2  spec->code: TLC prints every reachable abstract state with the answers of al
     every transition (every mutator call, enabled or panicking, out of every state); the harness
     reaches the source state on a live container by a real history, applies the call and compares
     all queries (and the iterator contract) with the spec's answers - default and 'safe' builds.
+R2b spec->code: IteratorProto.tla prints every history of Next / Len / Reset / slice form / item
+    reads up to a depth; each is replayed on the 18 iterator types of graph/iterator over
+    collections of 0..3 items (default and safe builds).
 R3  code->spec: seeded random histories of 10^3 calls over 64 ids (incl. extreme ids) are logged
     from the real containers and validated by TLC against GraphSetTrace / GraphMultiTrace.
 """
@@ -74,6 +77,15 @@ def run(ctx):
             ctx.replay(bins[bn], "graph-multi", cases, ["types=" + types, "ids=" + ids_json(ids)],
                        name="R2 replay multi %s [%s]" % (name, bn))
 
+    # ---- R2b: the iterator contract (IteratorProto.tla) on every iterator type of graph/iterator ----
+    depth = 8 if thorough else 6
+    ctx.tlc("graph/IteratorProto.tla", "graph/IteratorProto.cfg", name="R1 iterator contract (TypeOK, LenLaw, Exhausted)",
+            subst=dict(MAXN=4, DEPTH=depth + 1, EMIT="FALSE"))
+    cases = ctx.gen("graph/IteratorProto.tla", "graph/IteratorProto.cfg", name="R2 gen iterator histories depth %d" % depth,
+                    subst=dict(MAXN=3, DEPTH=depth, EMIT="TRUE"))
+    for bn, _ in builds:
+        ctx.replay(bins[bn], "graph-iter", cases, [], name="R2 replay iterator histories [%s]" % bn)
+
     # ---- R3: long random histories of the real containers, validated ------
     hist = 12 if thorough else 2
     for bn, _ in builds:
@@ -121,7 +133,8 @@ def run(ctx):
     return ctx.finish(
         rule="R2: one case = one transition of the abstract state graph (a mutator call out of a reachable state) "
              "replayed on one concrete type after a real history reaching the source state; non-trivial = the "
-             "call changes the abstract state or must panic. R3: one trace = one 1000-call random history.",
+             "call changes the abstract state or must panic. R2b: one case = one call history on one iterator type; "
+             "non-trivial = it hands out at least one item. R3: one trace = one 1000-call random history.",
         exhaustive=True)
 
 
